@@ -666,8 +666,10 @@ class SimplifyMapper(LokiIdentityMapper):
     def map_comparison(self, expr, *args, **kwargs):
         def get_constant_value(expr):
             if is_minus_prefix(expr):
-                return -1 * strip_minus_prefix(expr).value
-            return expr.value
+                return -1 * get_constant_value(strip_minus_prefix(expr))
+            if isinstance(expr, sym.IntLiteral):
+                return expr.value
+            return expr
 
         left = self.rec(expr.left, *args, **kwargs)
         right = self.rec(expr.right, *args, **kwargs)
